@@ -248,6 +248,9 @@ func init() {
 				p, _ := genLabelled(r, Pick(r, []int{16, 32}), Pick(r, []int64{-1, 0x7c00}), genOpts{Equs: true, Jumps: true})
 				src = p.Source()
 			}
+			// outside comments the text is kept ASCII: the CLI decodes its input as Shift_JIS first, so a UTF-8 string
+			// operand reaches the parser as other characters than the ones the in-process reference is given
+			src = asciiOnly(src)
 			add(&CLICase{What: "same-as-api", Src: []byte(src), Cell_: "same-as-api " + kind})
 			base := src
 			add(&CLICase{What: "comment-encoding", Src: commented(r, base, true), RefSrc: []byte(base), Cell_: "comments shift_jis " + kind})
